@@ -19,7 +19,7 @@ def universes(tier, seed):
             u2f.append(("fi", 2, i, sorted(v.inputs)))
     out.append(("U2f", u2f))
     if tier == "quick":
-        out.append((f"F3c[{seed % 24}/24]", [("idx", 3, i) for i in U.shard(U.F3_indices(True), seed, 24)]))
+        out.append((f"F3c[{seed % 48}/48]", [("idx", 3, i) for i in U.shard(U.F3_indices(True), seed, 48)]))
         out.append((f"MULTI3[{seed % 3}/3]", [("idx", 3, i) for i in U.shard(U.catalogue("multi"), seed, 3)]))
         out.append(("K3", [("k", k) for k in sorted(U.kernel_small(3))]))
     else:
